@@ -74,6 +74,9 @@ IRR = {
     "net100": {"method": 4, "kw": {"NetIrrSMT": 100}},
     "const8e70": {"method": 5, "kw": {"depth": 8, "AppEff": 70}},
     "const40e40": {"method": 5, "kw": {"depth": 40, "AppEff": 40, "MaxIrr": 100}},
+    "smt_e72.5": {"method": 1, "kw": {"SMT": [80, 70, 60, 50], "AppEff": 72.5}},  # fractional percentages are valid
+    "const8e87.75": {"method": 5, "kw": {"depth": 8, "AppEff": 87.75}},
+    "int3e62.5": {"method": 2, "kw": {"IrrInterval": 3, "AppEff": 62.5, "WetSurf": 42.5}},
     "const8wet30": {"method": 5, "kw": {"depth": 8, "WetSurf": 30}},
 }
 
@@ -127,7 +130,7 @@ CROPOPT = {
     "kcb_fage": {"Kcb": 1.2, "fage": 1.0},
 }
 
-IWC_KINDS = ["WP", "FC", "SAT", "Pct50", "Depth"]
+IWC_KINDS = ["WP", "FC", "SAT", "Pct50", "Depth", "DepthWetTop"]
 
 WINDOWS = {  # (start offset in days relative to first planting, n seasons, trailing days after last planting year's harvest)
     "w1": {"pre": 4, "seasons": 1},
@@ -140,7 +143,7 @@ WATER_MENUS = {
     "soil": ["SandyLoam", "Sand", "Clay", "Paddy", "custom3", "ClayLoam", "sandoverclay", "clayoversand"],
     "dz": ["d12", "nonuni", "deep30", "few8"],
     "iwc": IWC_KINDS,
-    "irr": ["none", "smt", "smt100e70", "int3", "sched", "net80", "net50", "net100", "const8e70", "const40e40", "smt_cap60"],
+    "irr": ["none", "smt", "smt100e70", "int3", "sched", "net80", "net50", "net100", "const8e70", "const40e40", "smt_cap60", "smt_e72.5", "const8e87.75", "int3e62.5"],
     "field": ["none", "bunds200", "bunds50w20", "bunds50w500", "mulch", "srinhb", "cn+20"],
     "fallow": ["none", "bunds50w20", "mulch"],
     "gw": ["none", "0.3", "0.8", "1.5", "rising_v", "falling_c"],
@@ -331,6 +334,10 @@ WATER_BASES = [
     # bunds in the fallow struct only, off-season simulated (otherwise ponding is reset at planting): the planting day is a bund-removal day with water still ponded from the pre-season days
     # (a run ends at the last harvest even with off_season=True, so post-harvest removal needs a following season: base 3)
     _b(soil="Clay", iwc="SAT", field="none", fallow="bunds50w20", off=True, win="w1", word="wet", crop="rice.2", irr="const40e40"),
+    # net irrigation meeting a root zone that straddles its threshold on the first day of a season (pre-irrigation of a mixed profile):
+    # from the initial profile, and from a simulated fallow whose showers wetted the top compartment only
+    _b(soil="SandyLoam", iwc="DepthWetTop", irr="net80", word="dry", crop="maize.2", win="w1"),
+    _b(soil="ClayLoam", iwc="Pct50", irr="net50", word="showers", crop="cotton.2", off=True, win="w2", dz="nonuni"),
 ]
 
 
